@@ -501,8 +501,34 @@ func genCommand(t *rapid.T, i int) command {
 	return c
 }
 
+// genMisplaced: a literal where the grammar has no string (a date, a number, a
+// sequence set, a flag, a status item), often of size 0. The command is
+// malformed and must fail, but it is still framed by the literal: its data and
+// the rest of its line belong to it and are never commands of their own.
+func genMisplaced(t *rapid.T, tag string) command {
+	form := rapid.SampledFrom([]string{"sync", "nonsync", "nonsync"}).Draw(t, "mis.form")
+	val := rapid.SampledFrom([]string{"", "", "", "x", "zz4 NOOP\r\n", "zz1 DELETE canarybox\r\n"}).Draw(t, "mis.val")
+	a := arg{val: val, form: form, announced: int64(len(val))}
+	post := rapid.SampledFrom([]string{"", " UNSEEN", "zz4 NOOP", " zz1 DELETE canarybox", "zz2 LOGIN canaryuser canarypass"}).Draw(t, "mis.post")
+	switch rapid.SampledFrom([]string{"date", "date", "number", "set", "flag", "item"}).Draw(t, "mis.pos") {
+	case "date":
+		key := rapid.SampledFrom([]string{"SINCE", "BEFORE", "ON", "SENTSINCE", "SENTBEFORE", "SENTON"}).Draw(t, "mis.key")
+		return command{tag: tag, kind: "SEARCH", pre: "SEARCH " + key + " ", args: []arg{a}, post: post, method: "Search", mustFail: true}
+	case "number":
+		return command{tag: tag, kind: "SEARCH", pre: "SEARCH LARGER ", args: []arg{a}, post: post, method: "Search", mustFail: true}
+	case "set":
+		return command{tag: tag, kind: "FETCH", pre: "FETCH ", args: []arg{a}, post: " FLAGS" + post, method: "Fetch", mustFail: true}
+	case "flag":
+		return command{tag: tag, kind: "STORE", pre: "STORE 1 +FLAGS ", args: []arg{a}, post: post, method: "Store", mustFail: true}
+	}
+	return command{tag: tag, kind: "STATUS", pre: "STATUS box (", args: []arg{a}, post: ")" + post, method: "Status", mustFail: true}
+}
+
 func genCommand1(t *rapid.T, i int) command {
 	tag := fmt.Sprintf("c%d", i)
+	if rapid.IntRange(0, 7).Draw(t, "misplaced-literal") == 0 {
+		return genMisplaced(t, tag)
+	}
 	switch rapid.SampledFrom([]string{"LOGIN", "SELECT", "CREATE", "STATUS", "LIST", "SEARCH", "SEARCH2", "APPEND", "APPEND", "FETCH", "NOOP", "AUTHENTICATE", "IDLE", "RENAME", "COPY"}).Draw(t, "cmd") {
 	case "LOGIN":
 		return command{tag: tag, kind: "LOGIN", pre: "LOGIN ", args: []arg{genArg(t, "user", false), genArg(t, "pass", false)}, method: "Login", argKey: []string{"username", "password"}}
